@@ -62,6 +62,29 @@ type target struct {
 	gen     func(rt *rapid.T) []byte       // structure-aware generator of whole cases
 	seeds   func() [][]byte                // valid packets + hostile constants (fuzz corpus)
 	cleanup func()                         // after a recovered panic
+
+	// steering around listed known findings (also applied to native fuzz inputs, see steerFuzz)
+	nsel      int                 // number of selector bytes in front of the packet
+	avoid     func([]byte) []byte // rewrites a packet so that it no longer has the shape of the listed findings
+	avoidSigs []string            // ... which are these signatures
+}
+
+// steerFuzz is what the generators do for rapid cases, as a deterministic function of a native fuzz input:
+// while one of the target's known findings is listed, 7 of 8 inputs are rewritten so that they avoid exactly
+// that shape (the search continues behind the finding); 1 of 8 is left alone so that the finding keeps firing.
+func steerFuzz(tg *target, data []byte) []byte {
+	if tg.avoid == nil {
+		return data
+	}
+	listed := false
+	for _, sg := range tg.avoidSigs {
+		listed = listed || vstat.IsListed(sg)
+	}
+	if !listed || vstat.Hash(data)%8 == 0 {
+		return data
+	}
+	sel, p := split(data, tg.nsel)
+	return withSel(tg.avoid(append([]byte(nil), p...)), sel...)
 }
 
 var targets = map[string]*target{}
